@@ -1,6 +1,7 @@
 package world
 
 import (
+	"slices"
 	"fmt"
 
 	ad "github.com/pbenner/autodiff"
@@ -66,14 +67,28 @@ func RunSparseConst(c *core.Ctx) {
 		c.Logf("v = NewSparseConst<%s>Vector(%v, %v, %d); model %v", etName, idx, val, n, m)
 	}
 	var v ad.ConstVector
+	var caller callerSlices
 	if pv, site := core.Try(func() {
 		if converted {
 			v = asSparseConst(et, ad.NewDenseFloat64Vector(dense))
 		} else {
-			v = newSparseConst(et, idx, val, n)
+			v, caller = newSparseConstCaller(et, idx, val, n)
 		}
 	}); pv != nil {
 		c.Fail("no-panic", "SparseConstVector|panic-in:constructor|"+core.PanicClass(pv), "constructor panicked in %s: %v", site, pv)
+	}
+	if caller.changed != nil {
+		// the copying constructor (the sharing one is called Unsafe...) leaves
+		// the slices it was given as they are, and the caller may go on using
+		// them: the vector is a read-only object of its own
+		if d := caller.changed(); d != "" {
+			c.Fail("caller-input", "SparseConstVector|constructor|caller-slices-changed", "NewSparseConst<%s>Vector changed the slices it was given: %s", etName, d)
+		}
+		if n > 0 && t.Bool(1, 2) {
+			caller.poke()
+			c.Logf("the caller overwrites the slices it had handed to the constructor")
+			c.Count("probe:caller-reuses-its-slices")
+		}
 	}
 	type handle struct {
 		v   ad.ConstVector
@@ -205,47 +220,65 @@ func RunSparseConst(c *core.Ctx) {
 	c.Sample = map[string]interface{}{"container": "SparseConst<" + etName + ">Vector", "dim": n, "entries": len(idx), "ops": nops, "handles": len(hs)}
 }
 
-func newSparseConst(et int, idx []int, val []float64, n int) ad.ConstVector {
+// callerSlices: what the caller handed to the (copying) constructor.  changed()
+// reports whether the constructor altered it; poke() is the caller re-using its
+// own slices afterwards, which must not be visible through the vector.
+type callerSlices struct {
+	changed func() string
+	poke    func()
+}
+
+type constElem interface {
+	~int | ~int8 | ~int16 | ~int32 | ~int64 | ~float32 | ~float64
+}
+
+func mkConst[T constElem](idx []int, val []float64, n int, ctor func([]int, []T, int) ad.ConstVector) (ad.ConstVector, callerSlices) {
 	ix := append([]int(nil), idx...)
+	v := make([]T, len(val))
+	for i := range v {
+		v[i] = T(val[i])
+	}
+	ix0, v0 := append([]int(nil), ix...), append([]T(nil), v...)
+	r := ctor(ix, v, n)
+	return r, callerSlices{
+		changed: func() string {
+			if !slices.Equal(ix, ix0) || !slices.Equal(v, v0) {
+				return fmt.Sprintf("indices %v -> %v, values %v -> %v", ix0, ix, v0, v)
+			}
+			return ""
+		},
+		poke: func() {
+			for i := range ix {
+				ix[i] = (ix[i] + 1) % n
+			}
+			for i := range v {
+				v[i] += 1
+			}
+		},
+	}
+}
+
+func newSparseConst(et int, idx []int, val []float64, n int) ad.ConstVector {
+	v, _ := newSparseConstCaller(et, idx, val, n)
+	return v
+}
+
+func newSparseConstCaller(et int, idx []int, val []float64, n int) (ad.ConstVector, callerSlices) {
 	switch et {
 	case 1:
-		v := make([]float32, len(val))
-		for i := range v {
-			v[i] = float32(val[i])
-		}
-		return ad.NewSparseConstFloat32Vector(ix, v, n)
+		return mkConst(idx, val, n, func(i []int, v []float32, n int) ad.ConstVector { return ad.NewSparseConstFloat32Vector(i, v, n) })
 	case 2:
-		v := make([]int, len(val))
-		for i := range v {
-			v[i] = int(val[i])
-		}
-		return ad.NewSparseConstIntVector(ix, v, n)
+		return mkConst(idx, val, n, func(i []int, v []int, n int) ad.ConstVector { return ad.NewSparseConstIntVector(i, v, n) })
 	case 3:
-		v := make([]int64, len(val))
-		for i := range v {
-			v[i] = int64(val[i])
-		}
-		return ad.NewSparseConstInt64Vector(ix, v, n)
+		return mkConst(idx, val, n, func(i []int, v []int64, n int) ad.ConstVector { return ad.NewSparseConstInt64Vector(i, v, n) })
 	case 4:
-		v := make([]int32, len(val))
-		for i := range v {
-			v[i] = int32(val[i])
-		}
-		return ad.NewSparseConstInt32Vector(ix, v, n)
+		return mkConst(idx, val, n, func(i []int, v []int32, n int) ad.ConstVector { return ad.NewSparseConstInt32Vector(i, v, n) })
 	case 5:
-		v := make([]int16, len(val))
-		for i := range v {
-			v[i] = int16(val[i])
-		}
-		return ad.NewSparseConstInt16Vector(ix, v, n)
+		return mkConst(idx, val, n, func(i []int, v []int16, n int) ad.ConstVector { return ad.NewSparseConstInt16Vector(i, v, n) })
 	case 6:
-		v := make([]int8, len(val))
-		for i := range v {
-			v[i] = int8(val[i])
-		}
-		return ad.NewSparseConstInt8Vector(ix, v, n)
+		return mkConst(idx, val, n, func(i []int, v []int8, n int) ad.ConstVector { return ad.NewSparseConstInt8Vector(i, v, n) })
 	}
-	return ad.NewSparseConstFloat64Vector(ix, append([]float64(nil), val...), n)
+	return mkConst(idx, val, n, func(i []int, v []float64, n int) ad.ConstVector { return ad.NewSparseConstFloat64Vector(i, v, n) })
 }
 
 func asSparseConst(et int, v ad.ConstVector) ad.ConstVector {
